@@ -506,6 +506,9 @@ func verifUngzip(b []byte) ([]byte, bool) {
 	return b[2:], true
 }
 
+// verifGzip applies the gzip contract.
+func verifGzip(b []byte) []byte { return append([]byte("GZ"), b...) }
+
 // readLeaves parses the data tiles of storage for the first n leaves; ok=false if something is missing.
 func (w *vWorld) readLeaves(n int64) ([]*sunlight.LogEntry, bool) {
 	var out []*sunlight.LogEntry
